@@ -217,12 +217,15 @@ func (tl *TaskLane) PushTask(task Task, index int) error {
 	case <-tl.ctx.Done():
 		return tl.ctx.Err()
 	default:
+		vhook(tl, "p.inner", index, task)
 		select {
 		case <-tl.ctx.Done():
 			return tl.ctx.Err()
 		case tl.bufferedQueueList[index] <- task:
+			vhook(tl, "p.sent", index, task)
 			return nil
 		case <-time.After(tl.timeout):
+			vhook(tl, "p.timeout", index, task)
 			return ErrTimeout
 		}
 	}
